@@ -1,6 +1,6 @@
 (* C11 — lock_all_entries yields each live entry of the snapshot exactly once. *)
 From Coq Require Import List Arith ZArith.
-From LK Require Import AList Model Inv StepInv PropLemmas.
+From LK Require Import AList Model Inv StepInv PropLemmas DropInv.
 Import ListNotations.
 
 (* The call takes its snapshot in one critical section: exactly the keys present then (valued or locked),
@@ -36,6 +36,28 @@ Theorem C11_end_iff_done : forall c s a subs s' ob,
   aget a (s_ops s) = Some (PStream subs) -> step c s (LPollEnd a) = ROk s' ob ->
   s' = s /\ (ob = OEnd <-> subs = []) /\ (ob = OPending <-> subs <> []).
 Proof. exact stream_pollend. Qed.
+
+(* Every pending key makes progress as soon as its mutex is free or handed to the stream: the first poll of
+   its future, the acquisition after a hand-over, and the drop of a valueless guard are always enabled.
+   So the stream reaches its end once the guards it waits for have been dropped. *)
+Theorem C11_first_poll_enabled : forall c s a subs k o,
+  reachable c s -> aget a (s_ops s) = Some (PStream subs) -> aget k subs = Some SInit ->
+  exists s' ob, step c s (LSub a k o) = ROk s' ob.
+Proof. intros c s a subs k o H. exact (stream_first_poll_enabled c s a subs k o (reachable_inv c s H)). Qed.
+
+Theorem C11_handed_poll_enabled : forall c s a subs k e o,
+  aget a (s_ops s) = Some (PStream subs) -> aget k subs = Some SQueued ->
+  aget k (s_ents s) = Some e -> e_owner e = Some (OwnW a) ->
+  exists s' ob, step c s (LSub a k o) = ROk s' ob.
+Proof. exact stream_handed_poll_enabled. Qed.
+
+Theorem C11_valueless_guard_is_dropped : forall c s a subs k g o,
+  reachable c s -> aget a (s_ops s) = Some (PStream subs) -> aget k subs = Some (SUnlocking g) ->
+  aget k (s_ents s) <> None ->
+  exists s' ob, step c s (LSub a k o) = ROk s' ob.
+Proof.
+  intros c s a subs k g o H. exact (stream_unlock_enabled c s a subs k g o (reachable_inv c s H) (reachable_dinv c s H)).
+Qed.
 
 (* While items are pending, other calls stay enabled: C03_only_key_waits_block applies to every other agent. *)
 
